@@ -202,17 +202,21 @@ class RFloat:
 
     @staticmethod
     def rounded(exact, lo, hi):
+        """Correctly rounded value of the real term `exact` (known to lie in [lo, hi]):
+        exact + err with |err| <= 2^-53 * |exact| (relative error of round-to-nearest for
+        results in the normal range; linear because 2^-53 is a constant)."""
         c = ctx()
         mag = max(abs(lo), abs(hi))
         if mag >= Fr(2) ** 1000:
             raise Unsupported("float magnitude out of the standard-model range")
         eps = mag * U
         err = z3.Real(c.name("fe"))
-        c.add(z3.And(err >= -q(eps), err <= q(eps)))
+        u = q(U)
+        c.add(z3.Or(z3.And(exact >= 0, err <= u * exact, err >= -u * exact),
+                    z3.And(exact < 0, err <= -u * exact, err >= u * exact)))
         if mag <= 2**53 and not _has_real_var(exact):
             c.add(z3.Implies(z3.IsInt(exact), err == 0))  # integers up to 2^53 are representable
-        st = c.notes.setdefault("roundings", 0)
-        c.notes["roundings"] = st + 1
+        c.notes["roundings"] = c.notes.get("roundings", 0) + 1
         return RFloat(exact + err, lo - eps, hi + eps)
 
     def __mul__(self, o):
